@@ -217,8 +217,8 @@ def c15c(ctx, tu):
         for bid, i, e in sig_ev:
             for b2 in sat["body"] | {sat["head"]}:
                 c = cfg.cond_of(f, b2)
-                if c is not None and lib.tree_name(c) == "trompeloeil::call_matcher_base::matches":
-                    if cfg.edge_dominates(f, (b2, 0), bid):
+                if c is not None and lib.tree_name(lib_cond(c)[0]) == "trompeloeil::call_matcher_base::matches":
+                    if cfg.edge_dominates(f, (b2, 0 if lib_cond(c)[1] else 1), bid):
                         ok = True
         ctx.ob("C15.c.satmatch", A["no_match"], ok, pattern=short_loc(sat["loc"]), unit=tu.name, inst=f.q,
                detail="" if ok else "saturated expectations are listed without testing that they match the call")
